@@ -200,6 +200,8 @@ type blockInfo struct {
 	NVals   int      `json:"validators"`
 	NilPre  int      `json:"nil_precommits"`
 	Len     int      `json:"encoded_len,omitempty"`
+	// ZeroValidatorsHash: a recover block whose validators hash is zero
+	ZeroValidatorsHash bool `json:"zero_validators_hash,omitempty"`
 }
 
 // genBlock builds a block the way a proposer does (MakeBlock + header fill-in), with every header field set.
@@ -244,6 +246,12 @@ func (w *world) genBlock(sp blockSpec) (*types.Block, *blockInfo) {
 	h.ParentHash = lastID.Hash
 	h.LastBlockID = lastID
 	h.ValidatorsHash = w.hash()
+	if h.Recover >= 1 && r.Chance(0.35) {
+		// block validation does not compare the validators hash of a recover block: it may be anything, also zero,
+		// and the block is still a block whose identity has to commit to every other field
+		h.ValidatorsHash = common.Hash{}
+		info.ZeroValidatorsHash = true
+	}
 	h.ConsensusHash = w.hash()
 	h.StateHash = w.hash()
 	h.ReceiptHash = w.hash()
